@@ -322,6 +322,8 @@ def check_vcf(spec, ctx):
                 ctx.label("multi_alt")
         if len(exp_groups) >= 2:
             ctx.label("two_phase_sets")
+        if 0 in exp_groups:
+            ctx.label("phase_set_zero")
         got = out.get(chrom, [])
         got_groups = []
         for m in got:
@@ -419,7 +421,7 @@ def strat_vcf(draw, tier="quick"):
             L = draw(st.sampled_from([0, 1, 1, 2, 3]))
             alts = [{"sequence": draw(st.text(alphabet="ACGT", min_size=0, max_size=3)), "type": draw(st.sampled_from(["SNV", "MNV", "indel"]))}
                     for _ in range(draw(st.sampled_from([1, 1, 1, 2, 3])))]
-            recs.append({"chrom": c, "start": pos, "end": pos + L, "alts": alts, "ps": draw(st.sampled_from([None, None, 1, 2, 7])),
+            recs.append({"chrom": c, "start": pos, "end": pos + L, "alts": alts, "ps": draw(st.sampled_from([None, None, 0, 1, 2, 7])),
                          "two_samples": draw(st.integers(0, 5)) == 0})
             pos += L
     return {"records": recs}
@@ -444,7 +446,7 @@ PROP = Prop(
             rule="features, transcripts (+-CDS), CDS, genes x 1..3 variants (as a collection or one variant) x parents: incorporate_variants(x) spliced sequences vs the edit model; operand unchanged"),
         Leg("haplotype_mapping", check_mapping, strategy=strat_mapping, n_quick=200, n_thorough=2000, shards_quick=4, must_hit=["mapping_nonempty"],
             rule="annotation collections with 0..2 single-SNV variant collections: alternative_haplotype_mapping keys/members by span overlap"),
-        Leg("vcf_records", check_vcf, strategy=strat_vcf, n_quick=800, n_thorough=8000, must_hit=["multi_alt", "two_phase_sets", "several_contigs"],
+        Leg("vcf_records", check_vcf, strategy=strat_vcf, n_quick=800, n_thorough=8000, must_hit=["multi_alt", "two_phase_sets", "several_contigs", "phase_set_zero"],
             rule="duck-typed VCF records (CHROM, affected_start/end, ALT[*].sequence/type, samples[*].data.PS present or absent, multi-ALT, several phase sets and contigs) through convert_vcf_records_to_model"),
     ],
     rule="Oracle: EditModel (literal substitution; per-block edited image). Non-trivial: >=2 length-changing variants with one upstream of and one inside the "
